@@ -13,6 +13,7 @@ import (
 
 	"github.com/piotrnar/gocoin/lib/btc"
 	"github.com/piotrnar/gocoin/lib/chain"
+	"github.com/piotrnar/gocoin/lib/others/memory"
 	"github.com/piotrnar/gocoin/lib/script"
 	"github.com/piotrnar/gocoin/lib/utxo"
 	"verif/ref/consensus"
@@ -216,7 +217,64 @@ func (n *Node) Close() {
 	if !n.closed {
 		n.closed = true
 		n.Ch.Close()
+		if clientAlloc != nil {
+			// nothing refers to the records any more: hand them back, so that the allocator's pages are unmapped
+			db := n.Ch.Unspent
+			for i := range db.HashMap {
+				for k, v := range db.HashMap[i] {
+					utxo.Memory_Free(v)
+					delete(db.HashMap[i], k)
+				}
+			}
+		}
 	}
+}
+
+// The running client stores the unspent-set records not on the Go heap but in its own recycling allocator
+// (lib/others/memory; config Memory.UseGoHeap=false is the default): client/common wires utxo.Memory_Malloc /
+// Memory_Free to it.  UseClientAllocator does the same for this process (once): freed record memory is then
+// really reused, so code that keeps a pointer into a record it has handed back reads something else.
+var (
+	clientAlloc     *memory.Allocator
+	clientAllocOnce sync.Once
+)
+
+func UseClientAllocator() {
+	clientAllocOnce.Do(func() {
+		clientAlloc = memory.NewAllocator()
+		// A page of a fresh allocator hands out never-used slots first and only then the freed ones; in a node that
+		// has been running for a while the pages are full and a freed slot is the very next one handed out.  Bring
+		// every small size class into that state: fill its first page, then free all of it but one slot.
+		a := clientAlloc
+		seen := map[int]bool{}
+		for size := 1; size <= 4096; size += 8 {
+			first := a.Malloc(size)
+			c := cap(*first)
+			if seen[c] {
+				a.Free(first)
+				continue
+			}
+			seen[c] = true
+			held := []*[]byte{first}
+			pages := a.SharedMmaps.Load()
+			for a.SharedMmaps.Load() == pages {
+				held = append(held, a.Malloc(size))
+			}
+			// the last one opened a second page (the allocator keeps a page with never-used slots as the current
+			// one even when it is empty): fill that one up as well, then free everything but one slot per page
+			n := len(held) - 1 // slots per page
+			for i := 1; i < n; i++ {
+				held = append(held, a.Malloc(size))
+			}
+			for i := len(held) - 1; i >= 1; i-- {
+				if i != n {
+					a.Free(held[i])
+				}
+			}
+		}
+		utxo.Memory_Malloc = clientAlloc.Malloc
+		utxo.Memory_Free = clientAlloc.Free
+	})
 }
 
 // Entry is one unspent output as the node sees it.
